@@ -208,6 +208,7 @@ func (g *gen) genOp(k string) Op {
 		if r.Chance(1, 40) {
 			op.NaN = []string{"nan", "inf", "chan"}[r.Intn(3)]
 		}
+		op.Flag = r.Chance(1, 8) // the caller identifies the new object itself (upper-case hex digits are legal)
 		return op
 	case "update":
 		lid, ok := g.pickLive()
@@ -267,11 +268,9 @@ func (g *gen) genOp(k string) Op {
 			}
 		}
 		if k == "bulk" {
-			cs := []int{1, 2, 3, n, n + 1}
-			op.Chunk = cs[r.Intn(len(cs))]
-			if op.Chunk < 1 {
-				op.Chunk = 1
-			}
+			cs := []int{0, 1, 2, 3, n, n + 1}
+			op.Chunk = cs[r.Intn(len(cs))] // 0: the whole stream is one chunk
+			op.Flag = true                 // chunk size given explicitly (0 is meaningful)
 		}
 		return op
 	case "reads":
